@@ -1323,8 +1323,10 @@ Section EmitAssign.
            match cs with
            | [] => []
            | c :: cs' =>
-               (* rhs[:len(val)] — NOT rhs[:len(val) - lhs_start]: finding C04-emit-assign-choice-window *)
-               emit_assign (snd c) start (firstn (Z.to_nat (ewidth (snd c))) rhs) (AMatch cond tn pats k)
+               (* if lhs_start >= len(val): continue ; rhs[:len(val) - lhs_start]   (/repo 961f42e; before that fix
+                  rhs[:len(val)] without the skip wrote past a narrower element) *)
+               (if ewidth (snd c) <=? start then []
+                else emit_assign (snd c) start (firstn (Z.to_nat (ewidth (snd c) - start)) rhs) (AMatch cond tn pats k))
                ++ go cs' (S k)
            end) cs 0%nat
     | _ => []
